@@ -1,9 +1,10 @@
 /-
 Model of copying, linking and pickling of thermosteam streams
-(`Stream.copy / copy_like / copy_thermal_condition / copy_flow / link_with / unlink /
+(`Stream.copy / copy_like / copy_thermal_condition / link_with / unlink /
 proxy / flow_proxy / __init__ / from_data / __reduce__ / get_data / set_data`,
 `MultiStream.copy_like / __init__`, `ChemicalIndexer.copy_like`,
 `MaterialIndexer.copy_like / _expand_phases`).  Core Lean only (no Mathlib).
+`copy_flow` is NOT modelled here (its conservation side is C01's; here it is probed by the oracle only).
 
 Python objects that can be shared are explicit objects of a store, addressed by ids
 (`Nat`); Python `is` is equality of ids, `.copy()` allocates, `a.data = b.data`
